@@ -37,7 +37,7 @@ def one(sid):
         shutil.rmtree(scratch, ignore_errors=True)
 
 
-with ThreadPoolExecutor(5) as ex:
+with ThreadPoolExecutor(8) as ex:
     out = list(ex.map(one, ids))
 nd = 0
 for sid, m, err in out:
